@@ -1,20 +1,31 @@
-//! C10 — dijkstra, astar, k_shortest_path on every storage type that meets the trait bounds, with
-//! non-negative costs presented as u32 / u64 / integer-valued f32 / f64, or as the non-integer dyadic
-//! floats w/8 (`f32q`, `f64q`: exactly representable, sums exact; printed in units of 1/8), and the
-//! `MinScored` order itself (src/scored.rs is a private module of petgraph: the real source file is compiled
-//! into the harness by path, so the table below exercises the code the algorithms use).
+//! C10 — dijkstra, astar, k_shortest_path on every storage type AND every graph adaptor that meets the trait
+//! bounds, with non-negative costs presented in every primitive cost type (`u8 … u64`, `usize`, `i8`, `i32`,
+//! `i64`, integer-valued `f32` / `f64`) or as the non-integer dyadic floats w/8 (`f32q`, `f64q`: exactly
+//! representable, sums exact; printed in units of 1/8), and the `MinScored` / `MaxScored` orders themselves
+//! (src/scored.rs is a private module of petgraph: the real source file is compiled into the harness by path, so
+//! the lines below exercise the code the algorithms use).
 //!
 //! Lines (all node ids abstract):
+//!   graph …  rows=<a:t/w,…;…>                     => ok      view as the ALGORITHMS see it: `edges(a)` + `e.target()`
 //!   dij <ty> <s> <goal|none>                      => v:c,v:c,…            (sorted by v)
 //!   astar <ty> <s> <goals|-> <h as v:h,…>         => none | <cost>|<path>
 //!   ksp <ty> <s> <goal|none> <k>                  => v:c,…
 //!   msc <ty> <a> <b>                              => <cmp>,<eq>,<partial_cmp>   (L/E/G, t/f)
 //!   msheap <ty> <scores>                          => scores in pop order of BinaryHeap<MinScored>
+//!   law <name> <detail…>                          => ok | VIOLATED <why>   (laws checked against the
+//!                                                    implementation itself; the driver expects `ok`)
+//! A goal id that is not a node of the (adapted) graph (`>= n`, a vacant StableGraph / MatrixGraph slot, a node
+//! hidden by `NodeFiltered`) is a legal goal: it is never reached.
 use crate::common::*;
 use crate::graphs::*;
 use crate::rng::Rng;
+use petgraph::acyclic::Acyclic;
 use petgraph::algo::{astar, dijkstra, k_shortest_path, Measure};
-use petgraph::visit::{Data, EdgeRef, IntoEdges, IntoNodeIdentifiers, NodeCount, NodeIndexable, Reversed, Visitable};
+use petgraph::graph::Frozen;
+use petgraph::visit::{
+    Data, EdgeFiltered, EdgeRef, FilterNode, IntoEdges, IntoEdgesDirected, IntoNodeIdentifiers, NodeCount, NodeFiltered, NodeIndexable, Reversed,
+    UndirectedAdaptor, VisitMap, Visitable,
+};
 use petgraph::{Directed, Undirected};
 use std::collections::BinaryHeap;
 use std::hash::Hash;
@@ -22,36 +33,45 @@ use std::hash::Hash;
 #[allow(dead_code)]
 #[path = "/repo/src/scored.rs"]
 mod scored_src;
-use scored_src::MinScored;
+use scored_src::{MaxScored, MinScored};
+
+// ------------------------------------------------------------------------------------------------
+// cost types
 
 trait Cost: Measure + Copy {
     const NAME: &'static str;
+    /// largest value up to which `+` of the type is exact (in the unit of the protocol)
+    const MAXV: i128;
     fn from_i(i: i64) -> Self;
     fn show(self) -> String;
 }
-impl Cost for u32 {
-    const NAME: &'static str = "u32";
-    fn from_i(i: i64) -> u32 { i as u32 }
-    fn show(self) -> String { self.to_string() }
+macro_rules! int_cost {
+    ($($t:ident),*) => {$(
+        impl Cost for $t {
+            const NAME: &'static str = stringify!($t);
+            const MAXV: i128 = $t::MAX as i128;
+            fn from_i(i: i64) -> $t { i as $t }
+            fn show(self) -> String { self.to_string() }
+        }
+    )*};
 }
-impl Cost for u64 {
-    const NAME: &'static str = "u64";
-    fn from_i(i: i64) -> u64 { i as u64 }
-    fn show(self) -> String { self.to_string() }
-}
+int_cost!(u8, u16, u32, u64, usize, i8, i32, i64);
 impl Cost for f64 {
     const NAME: &'static str = "f64";
+    const MAXV: i128 = 1 << 53;
     fn from_i(i: i64) -> f64 { i as f64 }
     fn show(self) -> String { show_f(self) }
 }
 impl Cost for f32 {
     const NAME: &'static str = "f32";
+    const MAXV: i128 = 1 << 24;
     fn from_i(i: i64) -> f32 { i as f32 }
     fn show(self) -> String { show_f(self as f64) }
 }
 
 /// costs that are multiples of 1/8 (non-integer, exactly representable dyadic floats); the protocol
-/// carries them in units of 1/8, i.e. as the integers the abstract graph holds
+/// carries them in units of 1/8, i.e. as the integers the abstract graph holds.  These are also the
+/// "user-defined `Measure`" instances (the blanket impl of `Measure`).
 #[derive(Debug, Clone, Copy, PartialEq, PartialOrd, Default)]
 struct Q64(f64);
 impl std::ops::Add for Q64 {
@@ -60,6 +80,7 @@ impl std::ops::Add for Q64 {
 }
 impl Cost for Q64 {
     const NAME: &'static str = "f64q";
+    const MAXV: i128 = 1 << 53;
     fn from_i(i: i64) -> Q64 { Q64(i as f64 / 8.0) }
     fn show(self) -> String { show_f(self.0 * 8.0) }
 }
@@ -71,8 +92,25 @@ impl std::ops::Add for Q32 {
 }
 impl Cost for Q32 {
     const NAME: &'static str = "f32q";
+    const MAXV: i128 = 1 << 24;
     fn from_i(i: i64) -> Q32 { Q32(i as f32 / 8.0) }
     fn show(self) -> String { show_f(self.0 as f64 * 8.0) }
+}
+
+/// f64 costs with +infinity: the abstract graph (and the heuristic table) carries the sentinel `INF_SENTINEL` where the
+/// call passes `f64::INFINITY`; every finite sum of a case stays far below the sentinel.  Answers print `inf`.
+const INF_SENTINEL: i64 = 1 << 40;
+#[derive(Debug, Clone, Copy, PartialEq, PartialOrd, Default)]
+struct Inf64(f64);
+impl std::ops::Add for Inf64 {
+    type Output = Inf64;
+    fn add(self, o: Inf64) -> Inf64 { Inf64(self.0 + o.0) }
+}
+impl Cost for Inf64 {
+    const NAME: &'static str = "f64inf";
+    const MAXV: i128 = 1 << 53;
+    fn from_i(i: i64) -> Inf64 { Inf64(if i >= INF_SENTINEL { f64::INFINITY } else { i as f64 }) }
+    fn show(self) -> String { show_f(self.0) }
 }
 
 /// integer-valued floats print as integers (so `-0.0` is `0`), the rest symbolically / raw
@@ -90,19 +128,26 @@ fn show_f(x: f64) -> String {
     }
 }
 
+// ------------------------------------------------------------------------------------------------
+// the harness's own reference
+
 /// the harness's own distances: plain Bellman-Ford over the abstract edge list (non-negative costs),
 /// multi-source; `rev` walks edges backwards (distance TO the nearest source)
 fn bf(ag: &AG, srcs: &[usize], rev: bool) -> Vec<Option<i64>> {
     let mut d: Vec<Option<i64>> = vec![None; ag.n];
     for &s in srcs {
-        d[s] = Some(0);
+        if s < ag.n {
+            d[s] = Some(0);
+        }
     }
     for _ in 0..=ag.n {
+        let mut changed = false;
         for &(a, b, w) in &ag.edges {
             let mut relax = |u: usize, v: usize, d: &mut Vec<Option<i64>>| {
                 if let Some(x) = d[u] {
                     if d[v].map_or(true, |y| x + w < y) {
                         d[v] = Some(x + w);
+                        changed = true;
                     }
                 }
             };
@@ -111,6 +156,9 @@ fn bf(ag: &AG, srcs: &[usize], rev: bool) -> Vec<Option<i64>> {
             if !ag.directed {
                 relax(v, u, &mut d);
             }
+        }
+        if !changed {
+            break;
         }
     }
     d
@@ -122,9 +170,55 @@ fn show_map<N: Copy, K: Cost>(m: impl IntoIterator<Item = (N, K)>, abs: &dyn Fn(
     list(v.iter().map(|(n, c)| format!("{}:{}", n, c.show())))
 }
 
-fn pick_source(rng: &mut Rng, ag: &AG) -> usize {
-    let with_out: Vec<usize> = (0..ag.n).filter(|&a| ag.edges.iter().any(|e| e.0 == a || (!ag.directed && e.1 == a))).collect();
-    if !with_out.is_empty() && rng.chance(75) { *rng.pick(&with_out) } else { rng.below(ag.n) }
+/// what one case asks of the algorithms
+#[derive(Clone, Copy)]
+struct Plan {
+    /// largest k of a k_shortest_path request
+    kmax: usize,
+    /// largest heuristic value on nodes that reach no goal
+    hdead: i64,
+    /// no algorithm computes a cost above this (see `run`)
+    cap: i128,
+    /// number of requests of each kind: dijkstra without goal, with goal, astar, k_shortest_path
+    reqs: [usize; 4],
+    /// the abstract id used for "a goal that is not a node"
+    absent: usize,
+    /// some weights (and dead-node heuristics) are the sentinel for +infinity: the requests go to `f64inf` as well
+    inf: bool,
+}
+
+struct Abs<'a> {
+    ag: &'a AG,
+    /// the nodes of the (adapted) graph; the others have no edges in `ag`
+    alive: &'a [usize],
+    hint: Option<(usize, usize)>,
+}
+
+fn pick_source(rng: &mut Rng, ab: &Abs) -> usize {
+    let ag = ab.ag;
+    // large shapes: the root (from which most of the graph is reachable) is the usual source
+    if ag.n > 20 {
+        if let Some((root, _)) = ab.hint {
+            if rng.chance(60) && ab.alive.contains(&root) {
+                return root;
+            }
+        }
+    }
+    let with_out: Vec<usize> = ab.alive.iter().cloned().filter(|&a| ag.edges.iter().any(|e| e.0 == a || (!ag.directed && e.1 == a))).collect();
+    if !with_out.is_empty() && rng.chance(75) { *rng.pick(&with_out) } else { *rng.pick(ab.alive) }
+}
+
+/// a goal: mostly reachable, sometimes any node, the source itself, or an id that is not a node
+fn pick_goal(rng: &mut Rng, ab: &Abs, plan: &Plan, s: usize) -> usize {
+    let d = bf(ab.ag, &[s], false);
+    let reach: Vec<usize> = (0..ab.ag.n).filter(|&v| d[v].is_some()).collect();
+    match rng.below(20) {
+        0..=13 => *rng.pick(&reach),
+        14..=16 => *rng.pick(ab.alive),
+        17 => s,
+        18 => rng.below(ab.ag.n),
+        _ => plan.absent,
+    }
 }
 
 fn one_dij<G, K: Cost>(ctx: &mut Ctx, g: G, s: usize, goal: Option<usize>, abs: &dyn Fn(G::NodeId) -> usize, conc: &dyn Fn(usize) -> G::NodeId)
@@ -162,69 +256,153 @@ where
     );
 }
 
-/// cost type of one call: u32 / u64 / f64 always; the 24-bit-exact f32 and the dyadic types only when
-/// the costs are small (`big` = weights scaled towards u32::MAX)
-macro_rules! with_cost {
-    ($rng:expr, $big:expr, $f:ident, $($args:expr),*) => {
-        match $rng.below(if $big { 3 } else { 6 }) {
-            0 => $f::<_, u32>($($args),*),
-            1 => $f::<_, u64>($($args),*),
-            2 => $f::<_, f64>($($args),*),
-            3 => $f::<_, f32>($($args),*),
-            4 => $f::<_, Q64>($($args),*),
-            _ => $f::<_, Q32>($($args),*),
+/// the set of cost types one encoding is exercised with (a trait so that only the chosen set is
+/// instantiated for a graph type): `Full` = every type, `Small` = u32 / u64 / f64 / f32q
+trait CostSet {
+    /// the cost types with +infinity this set brings along (`NoInf`: none)
+    type Inf: CostSet;
+    const HAS_INF: bool;
+    fn dij<G>(rng: &mut Rng, cap: i128, ctx: &mut Ctx, g: G, s: usize, goal: Option<usize>, abs: &dyn Fn(G::NodeId) -> usize, conc: &dyn Fn(usize) -> G::NodeId)
+    where
+        G: IntoEdges + Visitable + Data<EdgeWeight = i64> + Copy,
+        G::NodeId: Eq + Hash + Copy;
+    fn astar<G>(rng: &mut Rng, cap: i128, ctx: &mut Ctx, g: G, s: usize, goals: &[usize], h: &[i64], abs: &dyn Fn(G::NodeId) -> usize, conc: &dyn Fn(usize) -> G::NodeId)
+    where
+        G: IntoEdges + Visitable + Data<EdgeWeight = i64> + Copy,
+        G::NodeId: Eq + Hash + Copy;
+    fn ksp<G>(rng: &mut Rng, cap: i128, ctx: &mut Ctx, g: G, s: usize, goal: Option<usize>, k: usize, abs: &dyn Fn(G::NodeId) -> usize, conc: &dyn Fn(usize) -> G::NodeId)
+    where
+        G: IntoEdges + Visitable + NodeCount + NodeIndexable + Data<EdgeWeight = i64> + Copy,
+        G::NodeId: Eq + Hash + Copy;
+}
+
+/// pick, among the listed cost types, one whose exact range holds `cap`, and call `$f` with it
+macro_rules! dispatch {
+    ($rng:expr, $cap:expr, $f:ident, [$($t:ty),*], $args:tt) => {{
+        let maxes: Vec<i128> = vec![$(<$t as Cost>::MAXV),*];
+        let el: Vec<usize> = (0..maxes.len()).filter(|&i| maxes[i] >= $cap).collect();
+        let pick = *$rng.pick(&el);
+        let mut i = 0usize;
+        $(
+            if i == pick {
+                $f::<_, $t> $args;
+            }
+            i += 1;
+        )*
+        let _ = i;
+    }};
+}
+
+macro_rules! cost_set {
+    ($name:ident, $inf:ident, $has:expr, [$($t:ty),*]) => {
+        struct $name;
+        impl CostSet for $name {
+            type Inf = $inf;
+            const HAS_INF: bool = $has;
+            fn dij<G>(rng: &mut Rng, cap: i128, ctx: &mut Ctx, g: G, s: usize, goal: Option<usize>, abs: &dyn Fn(G::NodeId) -> usize, conc: &dyn Fn(usize) -> G::NodeId)
+            where
+                G: IntoEdges + Visitable + Data<EdgeWeight = i64> + Copy,
+                G::NodeId: Eq + Hash + Copy,
+            {
+                dispatch!(rng, cap, one_dij, [$($t),*], (ctx, g, s, goal, abs, conc))
+            }
+            fn astar<G>(rng: &mut Rng, cap: i128, ctx: &mut Ctx, g: G, s: usize, goals: &[usize], h: &[i64], abs: &dyn Fn(G::NodeId) -> usize, conc: &dyn Fn(usize) -> G::NodeId)
+            where
+                G: IntoEdges + Visitable + Data<EdgeWeight = i64> + Copy,
+                G::NodeId: Eq + Hash + Copy,
+            {
+                dispatch!(rng, cap, one_astar, [$($t),*], (ctx, g, s, goals, h, abs, conc))
+            }
+            fn ksp<G>(rng: &mut Rng, cap: i128, ctx: &mut Ctx, g: G, s: usize, goal: Option<usize>, k: usize, abs: &dyn Fn(G::NodeId) -> usize, conc: &dyn Fn(usize) -> G::NodeId)
+            where
+                G: IntoEdges + Visitable + NodeCount + NodeIndexable + Data<EdgeWeight = i64> + Copy,
+                G::NodeId: Eq + Hash + Copy,
+            {
+                dispatch!(rng, cap, one_ksp, [$($t),*], (ctx, g, s, goal, k, abs, conc))
+            }
         }
     };
 }
+cost_set!(Full, InfSet, true, [u8, u16, u32, u64, usize, i8, i32, i64, f32, f64, Q32, Q64]);
+cost_set!(Small, InfSet, true, [u32, u64, f64, Q32]);
+cost_set!(OnlyU32, NoInf, false, [u32, u64]);
+cost_set!(OnlyF64, NoInf, false, [f64, u64]);
+cost_set!(InfSet, NoInf, true, [Inf64]);
+/// no cost type at all (never called)
+struct NoInf;
+impl CostSet for NoInf {
+    type Inf = NoInf;
+    const HAS_INF: bool = false;
+    fn dij<G>(_: &mut Rng, _: i128, _: &mut Ctx, _: G, _: usize, _: Option<usize>, _: &dyn Fn(G::NodeId) -> usize, _: &dyn Fn(usize) -> G::NodeId)
+    where
+        G: IntoEdges + Visitable + Data<EdgeWeight = i64> + Copy,
+        G::NodeId: Eq + Hash + Copy,
+    {
+    }
+    fn astar<G>(_: &mut Rng, _: i128, _: &mut Ctx, _: G, _: usize, _: &[usize], _: &[i64], _: &dyn Fn(G::NodeId) -> usize, _: &dyn Fn(usize) -> G::NodeId)
+    where
+        G: IntoEdges + Visitable + Data<EdgeWeight = i64> + Copy,
+        G::NodeId: Eq + Hash + Copy,
+    {
+    }
+    fn ksp<G>(_: &mut Rng, _: i128, _: &mut Ctx, _: G, _: usize, _: Option<usize>, _: usize, _: &dyn Fn(G::NodeId) -> usize, _: &dyn Fn(usize) -> G::NodeId)
+    where
+        G: IntoEdges + Visitable + NodeCount + NodeIndexable + Data<EdgeWeight = i64> + Copy,
+        G::NodeId: Eq + Hash + Copy,
+    {
+    }
+}
 
-fn algos<G>(ctx: &mut Ctx, rng: &mut Rng, ag: &AG, hint: Option<(usize, usize)>, big: bool, g: G, abs: &dyn Fn(G::NodeId) -> usize, conc: &dyn Fn(usize) -> G::NodeId)
+/// dijkstra and astar requests (everything with `IntoEdges + Visitable`)
+fn algos_da<G, CS: CostSet>(ctx: &mut Ctx, rng: &mut Rng, ab: &Abs, plan: &Plan, g: G, abs: &dyn Fn(G::NodeId) -> usize, conc: &dyn Fn(usize) -> G::NodeId)
 where
-    G: IntoEdges + Visitable + NodeCount + NodeIndexable + Data<EdgeWeight = i64> + Copy,
+    G: IntoEdges + Visitable + Data<EdgeWeight = i64> + Copy,
     G::NodeId: Eq + Hash + Copy,
 {
+    let ag = ab.ag;
     let n = ag.n;
-    if n == 0 {
+    if ab.alive.is_empty() {
         return;
     }
     // dijkstra without goal
-    for _ in 0..2 {
-        let s = pick_source(rng, ag);
-        with_cost!(rng, big, one_dij, ctx, g, s, None, abs, conc);
+    for _ in 0..plan.reqs[0] {
+        let s = pick_source(rng, ab);
+        if plan.inf && CS::HAS_INF && rng.chance(60) {
+            <CS::Inf as CostSet>::dij(rng, plan.cap, ctx, g, s, None, abs, conc);
+        } else {
+            CS::dij(rng, plan.cap, ctx, g, s, None, abs, conc);
+        }
     }
-    // dijkstra with goal: prefer reachable goals, sometimes unreachable / the source itself
-    for _ in 0..3 {
-        let s = pick_source(rng, ag);
-        let d = bf(ag, &[s], false);
-        let reach: Vec<usize> = (0..n).filter(|&v| d[v].is_some()).collect();
-        let t = if rng.chance(75) { *rng.pick(&reach) } else { rng.below(n) };
-        with_cost!(rng, big, one_dij, ctx, g, s, Some(t), abs, conc);
+    // dijkstra with goal: prefer reachable goals, sometimes unreachable / the source itself / not a node
+    for _ in 0..plan.reqs[1] {
+        let s = pick_source(rng, ab);
+        let t = pick_goal(rng, ab, plan, s);
+        CS::dij(rng, plan.cap, ctx, g, s, Some(t), abs, conc);
     }
     // astar
-    for _ in 0..6 {
-        let mut s = pick_source(rng, ag);
+    for _ in 0..plan.reqs[2] {
+        let mut s = pick_source(rng, ab);
         let mut forced: Option<usize> = None;
-        if let Some((hs, ht)) = hint {
+        if let Some((hs, ht)) = ab.hint {
             if rng.chance(60) {
                 s = hs;
                 forced = Some(ht);
             }
         }
-        let d = bf(ag, &[s], false);
-        let reach: Vec<usize> = (0..n).filter(|&v| d[v].is_some()).collect();
         let ng: usize = match rng.below(20) { 0 => 0, 1..=12 => 1, 13..=16 => 2, _ => 3 };
         let mut goals: Vec<usize> = Vec::new();
         if let Some(t) = forced {
             goals.push(t);
         }
         for _ in 0..(if forced.is_some() { ng.saturating_sub(1) } else { ng }) {
-            let t = if rng.chance(80) { *rng.pick(&reach) } else { rng.below(n) };
+            let t = pick_goal(rng, ab, plan, s);
             if !goals.contains(&t) {
                 goals.push(t);
             }
         }
         // true distance to the nearest goal, then h(v) = floor(alpha_v * dist), alpha_v in [0,1]
         let dg = bf(ag, &goals, true);
-        // 0: h = 0 (dijkstra); 1: exact (consistent); 2/3: exact on a random subset, 0 elsewhere
+        // 0: h = 0 (dijkstra); 1: exact (consistent); 2/3/4: exact on a random subset, 0 elsewhere
         // (maximally inconsistent); else: random alpha per node
         let mode = rng.below(8);
         let pct = [30, 50, 70][rng.below(3)];
@@ -233,66 +411,373 @@ where
                 0 => 0,
                 1 => x,
                 2 | 3 | 4 => if rng.chance(pct) { x } else { 0 },
-                _ => x * rng.range(0, 100) / 100,
+                _ => ((x as i128) * (rng.range(0, 100) as i128) / 100) as i64,
             },
             // no goal reachable from v: every estimate is admissible
-            None => if rng.chance(50) { rng.range(0, 12) } else { 1000 },
+            None => if rng.chance(50) { rng.range(0, plan.hdead.min(12)) } else { plan.hdead },
         }).collect();
-        with_cost!(rng, big, one_astar, ctx, g, s, &goals, &h, abs, conc);
+        if plan.inf && CS::HAS_INF && rng.chance(60) {
+            <CS::Inf as CostSet>::astar(rng, plan.cap, ctx, g, s, &goals, &h, abs, conc);
+        } else {
+            CS::astar(rng, plan.cap, ctx, g, s, &goals, &h, abs, conc);
+        }
     }
-    // k_shortest_path
-    for i in 0..5 {
-        let s = pick_source(rng, ag);
-        let k = 1 + rng.below(4);
-        let goal = if i < 3 { None } else {
-            let d = bf(ag, &[s], false);
-            let reach: Vec<usize> = (0..n).filter(|&v| d[v].is_some()).collect();
-            Some(if rng.chance(75) { *rng.pick(&reach) } else { rng.below(n) })
-        };
-        with_cost!(rng, big, one_ksp, ctx, g, s, goal, k, abs, conc);
+}
+
+/// k_shortest_path requests (needs `NodeCount + NodeIndexable` too)
+fn algos_k<G, CS: CostSet>(ctx: &mut Ctx, rng: &mut Rng, ab: &Abs, plan: &Plan, g: G, abs: &dyn Fn(G::NodeId) -> usize, conc: &dyn Fn(usize) -> G::NodeId)
+where
+    G: IntoEdges + Visitable + NodeCount + NodeIndexable + Data<EdgeWeight = i64> + Copy,
+    G::NodeId: Eq + Hash + Copy,
+{
+    if ab.alive.is_empty() {
+        return;
+    }
+    for i in 0..plan.reqs[3] {
+        let s = pick_source(rng, ab);
+        // both ends of the range: k = 1 and k = kmax are drawn more often
+        let k = match rng.below(10) { 0 => 1, 1 => plan.kmax, _ => 1 + rng.below(plan.kmax) };
+        let goal = if i * 5 < plan.reqs[3] * 3 { None } else { Some(pick_goal(rng, ab, plan, s)) };
+        if plan.inf && CS::HAS_INF && goal.is_none() && rng.chance(60) {
+            <CS::Inf as CostSet>::ksp(rng, plan.cap, ctx, g, s, goal, k, abs, conc);
+        } else {
+            CS::ksp(rng, plan.cap, ctx, g, s, goal, k, abs, conc);
+        }
     }
 }
 
 // ------------------------------------------------------------------------------------------------
-// MinScored
+// the view, as the algorithms read it
+
+/// `graph` line from `node_identifiers`, `edges(a)` and the LITERAL `e.target()` of every edge reference
+/// (the three algorithms read nothing else of an edge besides its weight), `to_index`, `node_bound`.
+/// `rows=` repeats the rows as `target/weight`.  Returns the line and whether the rows are exactly the
+/// arcs of `ag` out of the listed nodes (as multisets) — requests make sense only on a consistent view.
+fn c10_view<G>(ag: &AG, g: G, abs: &dyn Fn(G::NodeId) -> usize) -> (String, bool)
+where
+    G: IntoNodeIdentifiers + IntoEdges + NodeIndexable + Data<EdgeWeight = i64> + Copy,
+    G::NodeId: Copy,
+{
+    let nodes: Vec<G::NodeId> = g.node_identifiers().collect();
+    let mut consistent = true;
+    let mut out = Vec::new();
+    let mut rows = Vec::new();
+    for &n in &nodes {
+        let a = abs(n);
+        let mut used = Vec::new();
+        let mut o = Vec::new();
+        let mut r = Vec::new();
+        for e in g.edges(n) {
+            let (t, w) = (abs(e.target()), *e.weight());
+            let k = eid_by_lookup(ag, a, t, w, &mut used);
+            if k == usize::MAX {
+                consistent = false;
+            }
+            o.push(format!("{}/{}", t, k));
+            r.push(format!("{}/{}", t, w));
+        }
+        let deg = ag.edges.iter().filter(|e| e.0 == a || (!ag.directed && e.1 == a)).count();
+        if deg != o.len() {
+            consistent = false;
+        }
+        out.push(format!("{}:{}", a, if o.is_empty() { "-".into() } else { o.join(",") }));
+        rows.push(format!("{}:{}", a, if r.is_empty() { "-".into() } else { r.join(",") }));
+    }
+    let edges = if ag.edges.is_empty() { "-".to_string() } else { ag.edges.iter().enumerate().map(|(k, &(a, b, w))| format!("{}:{}:{}:{}", k, a, b, w)).collect::<Vec<_>>().join(";") };
+    let line = format!(
+        "graph d={} nb={} nodes={} ix={} edges={} out={} in=- hasin=0 rows={}",
+        if ag.directed { 1 } else { 0 },
+        g.node_bound(),
+        list(nodes.iter().map(|&n| abs(n))),
+        list(nodes.iter().map(|&n| format!("{}:{}", abs(n), g.to_index(n)))),
+        edges,
+        if out.is_empty() { "-".into() } else { out.join(";") },
+        if rows.is_empty() { "-".into() } else { rows.join(";") },
+    );
+    (line, consistent)
+}
+
+/// deterministic pseudo-random predicate on an (unordered) pair and a weight: the edge filter
+fn keep_edge(salt: u64, a: usize, b: usize, w: i64, pct: u64) -> bool {
+    let (x, y) = if a <= b { (a, b) } else { (b, a) };
+    let mut z = salt ^ ((x as u64) << 40) ^ ((y as u64) << 20) ^ (w as u64);
+    z = (z ^ (z >> 30)).wrapping_mul(0xBF58476D1CE4E5B9);
+    z = (z ^ (z >> 27)).wrapping_mul(0x94D049BB133111EB);
+    (z ^ (z >> 31)) % 100 < pct
+}
+
+/// one graph (plain or adapted): view line, then — on a consistent view — the requests
+fn view_and_algos<G, CS: CostSet>(ctx: &mut Ctx, rng: &mut Rng, ab: &Abs, plan: &Plan, g: G, abs: &dyn Fn(G::NodeId) -> usize, conc: &dyn Fn(usize) -> G::NodeId)
+where
+    G: IntoNodeIdentifiers + IntoEdges + Visitable + NodeCount + NodeIndexable + Data<EdgeWeight = i64> + Copy,
+    G::NodeId: Eq + Hash + Copy,
+{
+    let (line, consistent) = c10_view(ab.ag, g, abs);
+    ctx.line(&line, "ok");
+    if consistent {
+        algos_da::<G, CS>(ctx, rng, ab, plan, g, abs, conc);
+        algos_k::<G, CS>(ctx, rng, ab, plan, g, abs, conc);
+    }
+}
+
+/// the same without k_shortest_path (`NodeFiltered` has no `NodeCount`)
+fn view_and_algos_da<G, CS: CostSet>(ctx: &mut Ctx, rng: &mut Rng, ab: &Abs, plan: &Plan, g: G, abs: &dyn Fn(G::NodeId) -> usize, conc: &dyn Fn(usize) -> G::NodeId)
+where
+    G: IntoNodeIdentifiers + IntoEdges + Visitable + NodeIndexable + Data<EdgeWeight = i64> + Copy,
+    G::NodeId: Eq + Hash + Copy,
+{
+    let (line, consistent) = c10_view(ab.ag, g, abs);
+    ctx.line(&line, "ok");
+    if consistent {
+        algos_da::<G, CS>(ctx, rng, ab, plan, g, abs, conc);
+    }
+}
+
+fn filtered_edges(ag: &AG, salt: u64, pct: u64) -> AG {
+    AG { directed: ag.directed, n: ag.n, edges: ag.edges.iter().cloned().filter(|&(a, b, w)| keep_edge(salt, a, b, w, pct)).collect() }
+}
+
+fn induced(ag: &AG, keep: &[bool]) -> AG {
+    AG { directed: ag.directed, n: ag.n, edges: ag.edges.iter().cloned().filter(|&(a, b, _)| keep[a] && keep[b]).collect() }
+}
+
+fn reversed(ag: &AG) -> AG {
+    AG { directed: ag.directed, n: ag.n, edges: ag.edges.iter().map(|&(a, b, w)| (b, a, w)).collect() }
+}
+
+/// adaptors that need only `IntoEdges` of the base: 0 = none, 1 = EdgeFiltered (closure), 2 = NodeFiltered
+/// (closure), 3 = NodeFiltered (the graph's own visit map as the filter), 4 = NodeFiltered over EdgeFiltered
+fn adapt_out<G, CS: CostSet>(ctx: &mut Ctx, rng: &mut Rng, ag: &AG, hint: Option<(usize, usize)>, plan: &Plan, which: usize, g: G, abs: &dyn Fn(G::NodeId) -> usize, conc: &dyn Fn(usize) -> G::NodeId)
+where
+    G: IntoNodeIdentifiers + IntoEdges + Visitable + NodeCount + NodeIndexable + Data<EdgeWeight = i64> + Copy,
+    G::NodeId: Eq + Hash + Copy,
+    G::Map: FilterNode<G::NodeId>,
+{
+    let all: Vec<usize> = (0..ag.n).collect();
+    let salt = rng.next();
+    let pct = [40u64, 60, 80, 100, 0][rng.below(5)];
+    let keep: Vec<bool> = (0..ag.n).map(|_| rng.chance(70)).collect();
+    let alive: Vec<usize> = (0..ag.n).filter(|&a| keep[a]).collect();
+    match which {
+        0 => view_and_algos::<G, CS>(ctx, rng, &Abs { ag, alive: &all, hint }, plan, g, abs, conc),
+        1 => {
+            let fag = filtered_edges(ag, salt, pct);
+            let f = EdgeFiltered::from_fn(g, |e: G::EdgeRef| keep_edge(salt, abs(e.source()), abs(e.target()), *e.weight(), pct));
+            view_and_algos::<_, CS>(ctx, rng, &Abs { ag: &fag, alive: &all, hint }, plan, &f, abs, conc);
+        }
+        2 => {
+            let iag = induced(ag, &keep);
+            let f = NodeFiltered::from_fn(g, |n: G::NodeId| keep[abs(n)]);
+            view_and_algos_da::<_, CS>(ctx, rng, &Abs { ag: &iag, alive: &alive, hint: None }, plan, &f, abs, conc);
+        }
+        3 => {
+            let iag = induced(ag, &keep);
+            let mut map = g.visit_map();
+            for &a in &alive {
+                map.visit(conc(a));
+            }
+            let f = NodeFiltered(g, map);
+            view_and_algos_da::<_, CS>(ctx, rng, &Abs { ag: &iag, alive: &alive, hint: None }, plan, &f, abs, conc);
+        }
+        _ => {
+            let iag = induced(&filtered_edges(ag, salt, pct), &keep);
+            let ef = EdgeFiltered::from_fn(g, |e: G::EdgeRef| keep_edge(salt, abs(e.source()), abs(e.target()), *e.weight(), pct));
+            let f = NodeFiltered::from_fn(&ef, |n: G::NodeId| keep[abs(n)]);
+            view_and_algos_da::<_, CS>(ctx, rng, &Abs { ag: &iag, alive: &alive, hint: None }, plan, &f, abs, conc);
+        }
+    }
+}
+
+/// adaptors that need `IntoEdgesDirected` of the base: 0 = Reversed, 1 = UndirectedAdaptor (directed bases),
+/// 2 = Reversed(Reversed), 3 = Reversed(&EdgeFiltered), 4 = &EdgeFiltered(Reversed)
+fn adapt_dir<G, CS: CostSet>(ctx: &mut Ctx, rng: &mut Rng, ag: &AG, hint: Option<(usize, usize)>, plan: &Plan, which: usize, g: G, abs: &dyn Fn(G::NodeId) -> usize, conc: &dyn Fn(usize) -> G::NodeId)
+where
+    G: IntoNodeIdentifiers + IntoEdgesDirected + Visitable + NodeCount + NodeIndexable + Data<EdgeWeight = i64> + Copy,
+    G::NodeId: Eq + Hash + Copy,
+{
+    let all: Vec<usize> = (0..ag.n).collect();
+    let salt = rng.next();
+    let pct = [40u64, 60, 80][rng.below(3)];
+    let rhint = hint.map(|(a, b)| (b, a));
+    match which {
+        0 => {
+            let rag = reversed(ag);
+            view_and_algos::<_, CS>(ctx, rng, &Abs { ag: &rag, alive: &all, hint: rhint }, plan, Reversed(g), abs, conc);
+        }
+        1 => {
+            let uag = AG { directed: false, n: ag.n, edges: ag.edges.clone() };
+            view_and_algos::<_, CS>(ctx, rng, &Abs { ag: &uag, alive: &all, hint }, plan, UndirectedAdaptor(g), abs, conc);
+        }
+        2 => view_and_algos::<_, CS>(ctx, rng, &Abs { ag, alive: &all, hint }, plan, Reversed(Reversed(g)), abs, conc),
+        3 => {
+            let rag = reversed(&filtered_edges(ag, salt, pct));
+            let f = EdgeFiltered::from_fn(g, |e: G::EdgeRef| keep_edge(salt, abs(e.source()), abs(e.target()), *e.weight(), pct));
+            view_and_algos::<_, CS>(ctx, rng, &Abs { ag: &rag, alive: &all, hint: rhint }, plan, Reversed(&f), abs, conc);
+        }
+        _ => {
+            let rag = reversed(&filtered_edges(ag, salt, pct));
+            let f = EdgeFiltered::from_fn(Reversed(g), |e| keep_edge(salt, abs(e.source()), abs(e.target()), *e.weight(), pct));
+            view_and_algos::<_, CS>(ctx, rng, &Abs { ag: &rag, alive: &all, hint: rhint }, plan, &f, abs, conc);
+        }
+    }
+}
+
+// ------------------------------------------------------------------------------------------------
+// MinScored / MaxScored
 
 fn ord(o: std::cmp::Ordering) -> &'static str {
     match o { std::cmp::Ordering::Less => "L", std::cmp::Ordering::Equal => "E", std::cmp::Ordering::Greater => "G" }
 }
 
+/// the provided methods of `PartialEq` / `PartialOrd` / `Ord` agree with `cmp`; `cmp` is antisymmetric;
+/// `Clone` / `Copy` keep both fields; `Debug` does not panic
+fn ord_laws<S: Ord + Clone + std::fmt::Debug>(x: &S, y: &S, tag: &dyn Fn(&S) -> usize) -> Option<String> {
+    use std::cmp::Ordering::*;
+    let c = x.cmp(y);
+    if y.cmp(x) != c.reverse() {
+        return Some(format!("cmp is not antisymmetric: {:?} vs {:?}", c, y.cmp(x)));
+    }
+    if x.partial_cmp(y) != Some(c) {
+        return Some("partial_cmp differs from Some(cmp)".into());
+    }
+    if (x == y) != (c == Equal) || (x != y) != (c != Equal) {
+        return Some("eq / ne differ from cmp == Equal".into());
+    }
+    if (x < y) != (c == Less) || (x <= y) != (c != Greater) || (x > y) != (c == Greater) || (x >= y) != (c != Less) {
+        return Some(format!("lt / le / gt / ge differ from cmp = {:?}", c));
+    }
+    // std: max returns the second argument unless the first is Greater; min the first unless it is Greater
+    let mx = tag(&x.clone().max(y.clone()));
+    let mn = tag(&x.clone().min(y.clone()));
+    let (wmx, wmn) = if c == Greater { (tag(x), tag(y)) } else { (tag(y), tag(x)) };
+    if mx != wmx || mn != wmn {
+        return Some("max / min do not pick by cmp".into());
+    }
+    if x.cmp(x) != Equal || x.clone().cmp(x) != Equal {
+        return Some("cmp is not reflexive (or a clone compares different)".into());
+    }
+    if format!("{:?}", x).is_empty() || format!("{:#?}", y).is_empty() {
+        return Some("Debug prints nothing".into());
+    }
+    None
+}
+
+fn law(ctx: &mut Ctx, name: &str, r: Option<Option<String>>) {
+    let ans = match r {
+        None => "VIOLATED panicked".to_string(),
+        Some(None) => "ok".to_string(),
+        Some(Some(why)) => format!("VIOLATED {}", why),
+    };
+    ctx.line(&format!("law {}", name), &ans);
+}
+
 fn minscored(ctx: &mut Ctx, rng: &mut Rng) {
     let fl = [f64::NAN, f64::NEG_INFINITY, -2.0, -1.0, -0.0, 0.0, 1.0, 2.0, 3.0, 1.0e9, f64::INFINITY];
     for _ in 0..4 {
-        if rng.chance(65) {
-            let (a, b) = (*rng.pick(&fl), *rng.pick(&fl));
-            let (x, y) = (MinScored(a, rng.below(5)), MinScored(b, rng.below(5)));
-            let pc = x.partial_cmp(&y).map_or("none", ord);
-            ctx.line(&format!("msc f64 {} {}", show_f(a), show_f(b)), &format!("{},{},{}", ord(x.cmp(&y)), if x == y { "t" } else { "f" }, pc));
-        } else {
-            let (a, b) = (rng.range(-3, 3), rng.range(-3, 3));
-            let (x, y) = (MinScored(a, rng.below(5)), MinScored(b, rng.below(5)));
-            let pc = x.partial_cmp(&y).map_or("none", ord);
-            ctx.line(&format!("msc i64 {} {}", a, b), &format!("{},{},{}", ord(x.cmp(&y)), if x == y { "t" } else { "f" }, pc));
+        match rng.below(20) {
+            0..=9 => {
+                let (a, b) = (*rng.pick(&fl), *rng.pick(&fl));
+                let (x, y) = (MinScored(a, rng.below(5)), MinScored(b, 5 + rng.below(5)));
+                let pc = x.partial_cmp(&y).map_or("none", ord);
+                ctx.line(&format!("msc f64 {} {}", show_f(a), show_f(b)), &format!("{},{},{}", ord(x.cmp(&y)), if x == y { "t" } else { "f" }, pc));
+                law(ctx, &format!("minscored-ord f64 {} {}", show_f(a), show_f(b)), catch(|| ord_laws(&x, &y, &|s| s.1)));
+            }
+            10..=13 => {
+                let (a, b) = (*rng.pick(&fl) as f32, *rng.pick(&fl) as f32);
+                // a payload that is Clone but not Copy
+                let (x, y) = (MinScored(a, vec![rng.below(5)]), MinScored(b, vec![5 + rng.below(5)]));
+                let pc = x.partial_cmp(&y).map_or("none", ord);
+                ctx.line(&format!("msc f32 {} {}", show_f(a as f64), show_f(b as f64)), &format!("{},{},{}", ord(x.cmp(&y)), if x == y { "t" } else { "f" }, pc));
+                law(ctx, &format!("minscored-ord f32 {} {}", show_f(a as f64), show_f(b as f64)), catch(|| ord_laws(&x, &y, &|s| s.1[0])));
+            }
+            14..=16 => {
+                let (a, b) = (rng.range(-3, 3), rng.range(-3, 3));
+                let (x, y) = (MinScored(a, rng.below(5)), MinScored(b, 5 + rng.below(5)));
+                let pc = x.partial_cmp(&y).map_or("none", ord);
+                ctx.line(&format!("msc i64 {} {}", a, b), &format!("{},{},{}", ord(x.cmp(&y)), if x == y { "t" } else { "f" }, pc));
+                law(ctx, &format!("minscored-ord i64 {} {}", a, b), catch(|| ord_laws(&x, &y, &|s| s.1)));
+            }
+            17 => {
+                // the ends of an unsigned score type, unit payload
+                let ends = [0u8, 1, 127, 128, 254, 255];
+                let (a, b) = (*rng.pick(&ends), *rng.pick(&ends));
+                let (x, y) = (MinScored(a, ()), MinScored(b, ()));
+                let pc = x.partial_cmp(&y).map_or("none", ord);
+                ctx.line(&format!("msc u8 {} {}", a, b), &format!("{},{},{}", ord(x.cmp(&y)), if x == y { "t" } else { "f" }, pc));
+                law(ctx, &format!("minscored-ord u8 {} {}", a, b), catch(|| ord_laws(&x, &y, &|_| 0)));
+            }
+            _ => {
+                // MaxScored (same file; not named by the property): laws only — the order on the non-NaN scores is the
+                // numeric one, i.e. the reverse of MinScored's
+                let (a, b) = (*rng.pick(&fl), *rng.pick(&fl));
+                let (x, y) = (MaxScored(a, rng.below(5)), MaxScored(b, 5 + rng.below(5)));
+                let r = catch(|| {
+                    if let Some(w) = ord_laws(&x, &y, &|s| s.1) {
+                        return Some(w);
+                    }
+                    if !a.is_nan() && !b.is_nan() && x.cmp(&y) != MinScored(a, 0).cmp(&MinScored(b, 0)).reverse() {
+                        return Some("MaxScored is not the reverse of MinScored on comparable scores".to_string());
+                    }
+                    if !a.is_nan() && !b.is_nan() && Some(x.cmp(&y)) != a.partial_cmp(&b) {
+                        return Some("MaxScored is not the numeric order on comparable scores".to_string());
+                    }
+                    None
+                });
+                law(ctx, &format!("maxscored-ord f64 {} {}", show_f(a), show_f(b)), r);
+            }
         }
     }
-    // the heap the algorithms use: pop order of BinaryHeap<MinScored<f64, _>>
-    let len = rng.below(9);
+    // transitivity on a random triple (f64 incl. NaN): cmp is a total preorder
+    {
+        let t: Vec<f64> = (0..3).map(|_| *rng.pick(&fl)).collect();
+        let r = catch(|| {
+            use std::cmp::Ordering::*;
+            for (i, j, k) in [(0, 1, 2), (0, 2, 1), (1, 0, 2), (1, 2, 0), (2, 0, 1), (2, 1, 0)] {
+                let (x, y, z) = (MinScored(t[i], i), MinScored(t[j], j), MinScored(t[k], k));
+                if x.cmp(&y) != Greater && y.cmp(&z) != Greater && x.cmp(&z) == Greater {
+                    return Some(format!("MinScored: {} <= {} <= {} but not {} <= {}", show_f(t[i]), show_f(t[j]), show_f(t[k]), show_f(t[i]), show_f(t[k])));
+                }
+                let (x, y, z) = (MaxScored(t[i], i), MaxScored(t[j], j), MaxScored(t[k], k));
+                if x.cmp(&y) != Greater && y.cmp(&z) != Greater && x.cmp(&z) == Greater {
+                    return Some(format!("MaxScored: {} <= {} <= {} but not {} <= {}", show_f(t[i]), show_f(t[j]), show_f(t[k]), show_f(t[i]), show_f(t[k])));
+                }
+            }
+            None
+        });
+        law(ctx, &format!("scored-transitive f64 {}", list(t.iter().map(|&x| show_f(x)))), r);
+    }
+    // the heap the algorithms use: pop order of BinaryHeap<MinScored<f64 / f32, _>>
+    let len = if rng.chance(15) { 9 + rng.below(24) } else { rng.below(9) };
     let xs: Vec<f64> = (0..len).map(|_| if rng.chance(15) { f64::NAN } else { *rng.pick(&fl) }).collect();
-    let r = catch(|| {
-        let mut h = BinaryHeap::new();
-        for (i, &x) in xs.iter().enumerate() {
-            h.push(MinScored(x, i));
-        }
-        let mut out = Vec::new();
-        while let Some(MinScored(x, _)) = h.pop() {
-            out.push(show_f(x));
-        }
-        list(out)
-    });
-    ctx.line(&format!("msheap f64 {}", list(xs.iter().map(|&x| show_f(x)))), &r.unwrap_or("panic".into()));
+    if rng.chance(70) {
+        let r = catch(|| {
+            let mut h = BinaryHeap::new();
+            for (i, &x) in xs.iter().enumerate() {
+                h.push(MinScored(x, i));
+            }
+            let mut out = Vec::new();
+            while let Some(MinScored(x, _)) = h.pop() {
+                out.push(show_f(x));
+            }
+            list(out)
+        });
+        ctx.line(&format!("msheap f64 {}", list(xs.iter().map(|&x| show_f(x)))), &r.unwrap_or("panic".into()));
+    } else {
+        let r = catch(|| {
+            // built in one go (heapify) instead of push by push, f32 scores
+            let mut h: BinaryHeap<MinScored<f32, usize>> = xs.iter().enumerate().map(|(i, &x)| MinScored(x as f32, i)).collect();
+            let mut out = Vec::new();
+            while let Some(MinScored(x, _)) = h.pop() {
+                out.push(show_f(x as f64));
+            }
+            list(out)
+        });
+        ctx.line(&format!("msheap f32 {}", list(xs.iter().map(|&x| show_f(x as f32 as f64)))), &r.unwrap_or("panic".into()));
+    }
 }
 
 // ------------------------------------------------------------------------------------------------
+// encodings
 
 macro_rules! with_ty {
     ($directed:expr, $f:ident, $($args:expr),*) => {
@@ -300,108 +785,347 @@ macro_rules! with_ty {
     };
 }
 
-fn enc_name(k: usize) -> &'static str {
-    ["graph-u32", "graph-u8", "stable-holes", "matrix", "graphmap", "csr", "adjlist", "reversed", "stable-u8"][k]
+const ENC_NAMES: [&str; 16] = [
+    "graph-u32", "graph-u8", "stable-holes", "matrix", "graphmap", "csr", "adjlist", "graph-u16", "stable-u8", "graph-usize", "graphmap-fx", "frozen-graph",
+    "frozen-stable", "acyclic-graph", "acyclic-stable", "stable-u16",
+];
+
+/// adaptor name for the case line
+fn adapt_name(dir: bool, which: usize) -> &'static str {
+    if dir { ["rev", "ua", "rev-rev", "rev-ef", "ef-rev"][which] } else { ["plain", "ef", "nf", "nf-map", "nf-ef"][which] }
 }
 
-fn case_ty<Ty: petgraph::EdgeType>(ctx: &mut Ctx, rng: &mut Rng, ag: &AG, fam: usize, hint: Option<(usize, usize)>, big: bool, case: u64) {
-    let n = ag.n;
+/// `Graph` / `StableGraph` node index of an abstract node, for a graph whose node weight is the abstract id
+macro_rules! cidx_of {
+    ($g:expr, $n:expr, $ix:ty) => {{
+        let mut v = vec![petgraph::graph::NodeIndex::<$ix>::new(0); $n];
+        for x in $g.node_indices() {
+            v[$g[x]] = x;
+        }
+        v
+    }};
+}
+
+struct Shape {
+    fam: String,
+    kind: &'static str,
+    hint: Option<(usize, usize)>,
+    /// encodings this shape may be given (indices of ENC_NAMES)
+    encs: Vec<usize>,
+}
+
+fn case_ty<Ty: petgraph::EdgeType + 'static>(ctx: &mut Ctx, rng: &mut Rng, ag0: &AG, shape: &Shape, case: u64) {
+    let n = ag0.n;
     let node_order = random_perm(rng, n);
-    let edge_order = random_perm(rng, ag.edges.len());
+    let edge_order = random_perm(rng, ag0.edges.len());
     let mut inv = vec![0usize; n];
     for (i, &a) in node_order.iter().enumerate() {
         inv[a] = i;
     }
-    let simple = ag.is_simple();
-    let mut choices = vec![0, 1, 2, 2, 7, 8];
-    if simple {
-        choices.extend([3, 4, 5]);
-        if ag.directed {
-            choices.push(6);
-        }
+    let simple = ag0.is_simple();
+    let dag = ag0.directed && is_dag(ag0);
+    let mut choices: Vec<usize> = shape.encs.iter().cloned().filter(|&e| match e {
+        3 | 4 | 5 | 10 => simple,
+        6 => simple && ag0.directed,
+        13 | 14 => dag,
+        _ => true,
+    }).collect();
+    if choices.is_empty() {
+        choices.push(0);
     }
     let enc = *rng.pick(&choices);
-    ctx.raw(&format!("case {} fam={} enc={} n={} m={}{}", case, if hint.is_some() { "astar-trap" } else { family_name(fam) }, enc_name(enc), n, ag.edges.len(), if big { " big" } else { "" }));
+    // the adaptor: 45 % none; otherwise one of those the base admits
+    let has_dir = !matches!(enc, 5 | 6) && !(enc == 3 && !ag0.directed);
+    let mut ad: Vec<(bool, usize)> = vec![(false, 0); 9];
+    ad.extend([(false, 1), (false, 1), (false, 2), (false, 3), (false, 4)]);
+    if has_dir && enc == 3 {
+        // Reversed over MatrixGraph shows the open finding D6 in the view (nothing else is asked then): drawn less often
+        ad.extend([(true, 2), (true, 2)]);
+        if rng.chance(30) {
+            ad.push((true, [0, 3, 4][rng.below(3)]));
+        }
+    } else if has_dir {
+        ad.extend([(true, 0), (true, 0), (true, 2), (true, 3), (true, 4)]);
+    }
+    if has_dir {
+        // UndirectedAdaptor: "an edge direction removing adaptor" — directed bases; over the loop-free MatrixGraph only
+        // (over the other bases the view shows the open finding D23 and nothing else is asked: drawn less often)
+        if ag0.directed && !(enc == 3 && ag0.has_loop()) && (enc == 3 || rng.chance(40)) {
+            ad.extend([(true, 1), (true, 1)]);
+        }
+    }
+    let (dir, which) = if shape.kind == "cap" { (false, 0) } else { *rng.pick(&ad) };
+    // cost class: the largest cost any request of this case may compute is `cap`; 8 % of the cases are scaled so that
+    // `cap` comes close to the largest value of a cost type.  No algorithm computes a cost above
+    // (kmax * n + 1) * max weight + max heuristic: a dijkstra / astar score is the cost of a path of first discoveries
+    // (<= n arcs), the j-th cheapest walk (j <= k) has at most j * n arcs, plus the one arc being relaxed.
+    let full = enc == 0 && !dir && which == 0;
+    let kmax = if shape.kind == "tiny" { 6 } else if shape.kind == "cap" || shape.kind == "wide" { 2 } else { 4 };
+    let maxw = ag0.edges.iter().map(|e| e.2).max().unwrap_or(1).max(1) as i128;
+    let hdead0: i128 = if rng.chance(50) { 1000 } else { 12 };
+    let base_cap = ((kmax * n + 1) as i128) * maxw;
+    let mut ag = ag0.clone();
+    let mut hdead = hdead0;
+    let mut cls = "plain".to_string();
+    if rng.chance(if full { 30 } else { 8 }) && shape.kind != "cap" {
+        let classes: &[(i128, &str)] = if full {
+            &[(127, "i8"), (255, "u8"), (65535, "u16"), (1 << 24, "f32"), (2147483647, "i32"), (4294967295, "u32"), (1 << 53, "f64"), (1 << 62, "i64")]
+        } else {
+            &[(4294967295, "u32")]
+        };
+        let (mx, name) = *rng.pick(classes);
+        // heuristics on dead nodes take a tenth of the range
+        let f = (mx - mx / 10) / base_cap;
+        if f >= 1 {
+            for e in ag.edges.iter_mut() {
+                e.2 = (e.2 as i128 * f) as i64;
+            }
+            hdead = mx / 10;
+            cls = format!("big-{}", name);
+        }
+    }
+    // +infinity: a third of the edges cost the sentinel (f64::INFINITY in the `f64inf` calls), and so may the estimate of
+    // a node that reaches no goal
+    let mut inf = false;
+    if cls == "plain" && matches!(shape.kind, "regular" | "trap" | "tiny") && !ag.edges.is_empty() && rng.chance(6) {
+        inf = true;
+        cls = "inf".to_string();
+        let m = ag.edges.len();
+        let forced = rng.below(m);
+        for (i, e) in ag.edges.iter_mut().enumerate() {
+            if i == forced || rng.chance(30) {
+                e.2 = INF_SENTINEL;
+            }
+        }
+        if rng.chance(50) {
+            hdead = INF_SENTINEL as i128;
+        }
+    }
+    let cap = ((kmax * n + 1) as i128) * (ag.edges.iter().map(|e| e.2).max().unwrap_or(1).max(1) as i128) + hdead;
+    let reqs = match shape.kind { "cap" => [1, 1, 1, 1], "wide" => [1, 2, 3, 2], _ => [2, 3, 6, 5] };
+    let plan = Plan { kmax, hdead: hdead as i64, cap, reqs, absent: n + 1000, inf };
+    let ag = &ag;
+    let hint = shape.hint;
+    ctx.raw(&format!(
+        "case {} fam={} kind={} enc={}({}) n={} m={} cls={}",
+        case, shape.fam, shape.kind, adapt_name(dir, which), ENC_NAMES[enc], n, ag.edges.len(), cls
+    ));
+    // run the chosen adaptor over a base `$g` (a `Copy` graph reference)
+    macro_rules! go {
+        ($cs:ty, $g:expr, $abs:expr, $conc:expr, dir) => {
+            if dir { adapt_dir::<_, $cs>(ctx, rng, ag, hint, &plan, which, $g, $abs, $conc) } else { adapt_out::<_, $cs>(ctx, rng, ag, hint, &plan, which, $g, $abs, $conc) }
+        };
+        ($cs:ty, $g:expr, $abs:expr, $conc:expr, out) => {
+            adapt_out::<_, $cs>(ctx, rng, ag, hint, &plan, which, $g, $abs, $conc)
+        };
+    }
+    // a concrete id for "not a node": beyond the bound, or a vacant slot
     match enc {
         0 => {
             let e = enc_graph::<Ty, u32>(ag, &node_order, &edge_order);
             let g = &e.g;
             let abs = |x: petgraph::graph::NodeIndex<u32>| g[x];
-            let conc = |a: usize| petgraph::graph::NodeIndex::<u32>::new(inv[a]);
-            ctx.line(&view_line(ag, g, &abs, &|er, _| e.eid[EdgeRef::id(&er).index()]), "ok");
-            algos(ctx, rng, ag, hint, big, g, &abs, &conc);
+            let conc = |a: usize| petgraph::graph::NodeIndex::<u32>::new(if a < n { inv[a] } else { n + 3 });
+            if full {
+                view_and_algos::<_, Full>(ctx, rng, &Abs { ag, alive: &(0..n).collect::<Vec<_>>(), hint }, &plan, g, &abs, &conc);
+            } else {
+                go!(Small, g, &abs, &conc, dir);
+            }
         }
         1 => {
             let e = enc_graph::<Ty, u8>(ag, &node_order, &edge_order);
             let g = &e.g;
             let abs = |x: petgraph::graph::NodeIndex<u8>| g[x];
-            let conc = |a: usize| petgraph::graph::NodeIndex::<u8>::new(inv[a]);
-            ctx.line(&view_line(ag, g, &abs, &|er, _| e.eid[EdgeRef::id(&er).index()]), "ok");
-            algos(ctx, rng, ag, hint, big, g, &abs, &conc);
+            // at 255 nodes no index is free: u8::MAX itself (`NodeIndex::end()`) is the id that is not a node
+            let conc = |a: usize| petgraph::graph::NodeIndex::<u8>::new(if a < n { inv[a] } else { (n + 3).min(255) });
+            go!(OnlyU32, g, &abs, &conc, dir);
+        }
+        7 => {
+            let e = enc_graph::<Ty, u16>(ag, &node_order, &edge_order);
+            let g = &e.g;
+            let abs = |x: petgraph::graph::NodeIndex<u16>| g[x];
+            let conc = |a: usize| petgraph::graph::NodeIndex::<u16>::new(if a < n { inv[a] } else { n + 3 });
+            go!(OnlyF64, g, &abs, &conc, dir);
+        }
+        9 => {
+            let e = enc_graph::<Ty, usize>(ag, &node_order, &edge_order);
+            let g = &e.g;
+            let abs = |x: petgraph::graph::NodeIndex<usize>| g[x];
+            let conc = |a: usize| petgraph::graph::NodeIndex::<usize>::new(if a < n { inv[a] } else { n + 3 });
+            go!(OnlyU32, g, &abs, &conc, dir);
         }
         2 => {
             let e = enc_stable::<Ty, u32>(rng, ag, &node_order, &edge_order, true);
             let g = &e.g;
-            let cidx: Vec<_> = { let mut v = vec![petgraph::graph::NodeIndex::<u32>::new(0); n]; for x in g.node_indices() { v[g[x]] = x; } v };
+            let cidx = cidx_of!(g, n, u32);
             let abs = |x: petgraph::graph::NodeIndex<u32>| g[x];
-            let conc = |a: usize| cidx[a];
-            ctx.line(&view_line(ag, g, &abs, &|er, _| e.eid[EdgeRef::id(&er).index()]), "ok");
-            algos(ctx, rng, ag, hint, big, g, &abs, &conc);
+            // a stale id: a vacant slot below node_bound if there is one
+            let vacant = (0..g.node_bound()).map(petgraph::graph::NodeIndex::<u32>::new).find(|&x| !g.contains_node(x)).unwrap_or(petgraph::graph::NodeIndex::new(g.node_bound() + 2));
+            let conc = |a: usize| if a < n { cidx[a] } else { vacant };
+            go!(Small, g, &abs, &conc, dir);
         }
         8 => {
-            let e = enc_stable::<Ty, u8>(rng, ag, &node_order, &edge_order, true);
+            let e = enc_stable::<Ty, u8>(rng, ag, &node_order, &edge_order, shape.kind != "cap");
             let g = &e.g;
-            let cidx: Vec<_> = { let mut v = vec![petgraph::graph::NodeIndex::<u8>::new(0); n]; for x in g.node_indices() { v[g[x]] = x; } v };
+            let cidx = cidx_of!(g, n, u8);
             let abs = |x: petgraph::graph::NodeIndex<u8>| g[x];
-            let conc = |a: usize| cidx[a];
-            ctx.line(&view_line(ag, g, &abs, &|er, _| e.eid[EdgeRef::id(&er).index()]), "ok");
-            algos(ctx, rng, ag, hint, big, g, &abs, &conc);
+            let vacant = (0..g.node_bound()).map(petgraph::graph::NodeIndex::<u8>::new).find(|&x| !g.contains_node(x)).unwrap_or(petgraph::graph::NodeIndex::new((g.node_bound() + 2).min(255)));
+            let conc = |a: usize| if a < n { cidx[a] } else { vacant };
+            go!(OnlyF64, g, &abs, &conc, dir);
+        }
+        15 => {
+            let e = enc_stable::<Ty, u16>(rng, ag, &node_order, &edge_order, true);
+            let g = &e.g;
+            let cidx = cidx_of!(g, n, u16);
+            let abs = |x: petgraph::graph::NodeIndex<u16>| g[x];
+            let vacant = (0..g.node_bound()).map(petgraph::graph::NodeIndex::<u16>::new).find(|&x| !g.contains_node(x)).unwrap_or(petgraph::graph::NodeIndex::new(g.node_bound() + 2));
+            let conc = |a: usize| if a < n { cidx[a] } else { vacant };
+            go!(OnlyU32, g, &abs, &conc, dir);
         }
         3 => {
             let g0 = enc_matrix::<Ty>(rng, ag, &node_order, &edge_order, true);
             let g = &g0;
             let cidx: Vec<_> = { let mut v = vec![petgraph::matrix_graph::NodeIndex::new(0); n]; for x in g.node_identifiers() { v[*g.node_weight(x)] = x; } v };
             let abs = |x: petgraph::matrix_graph::NodeIndex| *g.node_weight(x);
-            let conc = |a: usize| cidx[a];
-            ctx.line(&view_line_out_only(ag, g, &abs, &|er, used| { let (s, t) = (abs(EdgeRef::source(&er)), abs(EdgeRef::target(&er))); eid_by_lookup(ag, s, t, *EdgeRef::weight(&er), used) }), "ok");
-            algos(ctx, rng, ag, hint, big, g, &abs, &conc);
+            let live: Vec<usize> = g.node_identifiers().map(|x| x.index()).collect();
+            let vacant = (0..g.node_bound()).find(|i| !live.contains(i)).unwrap_or(g.node_bound() + 2);
+            let conc = |a: usize| if a < n { cidx[a] } else { petgraph::matrix_graph::NodeIndex::new(vacant) };
+            matrix_go::<Ty, Small>(ctx, rng, ag, hint, &plan, dir, which, g, &abs, &conc);
         }
         4 => {
             let g0 = enc_map::<Ty>(ag, &node_order, &edge_order);
             let g = &g0;
             let abs = |x: usize| x;
             let conc = |a: usize| a;
-            ctx.line(&view_line(ag, g, &abs, &|er, used| eid_by_lookup(ag, EdgeRef::source(&er), EdgeRef::target(&er), *EdgeRef::weight(&er), used)), "ok");
-            algos(ctx, rng, ag, hint, big, g, &abs, &conc);
+            go!(Small, g, &abs, &conc, dir);
+        }
+        10 => {
+            // GraphMap with a non-default hasher
+            let mut g0 = petgraph::graphmap::GraphMap::<usize, i64, Ty, fxhash::FxBuildHasher>::with_capacity_and_hasher(rng.below(4), rng.below(4), Default::default());
+            for &a in &node_order {
+                g0.add_node(a);
+            }
+            for &k in &edge_order {
+                let (a, b, w) = ag.edges[k];
+                g0.add_edge(a, b, w);
+            }
+            let g = &g0;
+            let abs = |x: usize| x;
+            let conc = |a: usize| a;
+            go!(OnlyF64, g, &abs, &conc, dir);
         }
         5 => {
             let g0 = enc_csr::<Ty>(ag, &node_order, &edge_order);
             let g = &g0;
             let abs = |x: u32| g[x];
-            let conc = |a: usize| inv[a] as u32;
-            ctx.line(&view_line_out_only(ag, g, &abs, &|er, used| eid_by_lookup(ag, abs(EdgeRef::source(&er)), abs(EdgeRef::target(&er)), *EdgeRef::weight(&er), used)), "ok");
-            algos(ctx, rng, ag, hint, big, g, &abs, &conc);
+            let conc = |a: usize| if a < n { inv[a] as u32 } else { (n + 3) as u32 };
+            go!(Small, g, &abs, &conc, out);
         }
         6 => {
             let g0 = enc_list(ag, &node_order, &edge_order);
             let g = &g0;
             let abs = |x: u32| node_order[x as usize];
-            let conc = |a: usize| inv[a] as u32;
-            ctx.line(&view_line_out_only(ag, g, &abs, &|er, used| eid_by_lookup(ag, abs(EdgeRef::source(&er)), abs(EdgeRef::target(&er)), *EdgeRef::weight(&er), used)), "ok");
-            algos(ctx, rng, ag, hint, big, g, &abs, &conc);
+            let conc = |a: usize| if a < n { inv[a] as u32 } else { (n + 3) as u32 };
+            go!(Small, g, &abs, &conc, out);
         }
-        _ => {
-            // Reversed(&Graph): the abstract graph is the reverse
+        11 => {
+            // the visit traits of `&Frozen<G>` ask them of `G` itself, so `G` is a graph reference here
             let e = enc_graph::<Ty, u32>(ag, &node_order, &edge_order);
-            let rag = AG { directed: ag.directed, n: ag.n, edges: ag.edges.iter().map(|&(a, b, w)| (b, a, w)).collect() };
-            let g = Reversed(&e.g);
+            let mut r = &e.g;
+            let fz = Frozen::new(&mut r);
+            let g = &fz;
             let abs = |x: petgraph::graph::NodeIndex<u32>| e.g[x];
-            let conc = |a: usize| petgraph::graph::NodeIndex::<u32>::new(inv[a]);
-            ctx.line(&view_line(&rag, g, &abs, &|er, _| e.eid[EdgeRef::id(&er).index()]), "ok");
-            algos(ctx, rng, &rag, hint.map(|(a, b)| (b, a)), big, g, &abs, &conc);
+            let conc = |a: usize| petgraph::graph::NodeIndex::<u32>::new(if a < n { inv[a] } else { n + 3 });
+            go!(OnlyU32, g, &abs, &conc, dir);
         }
+        12 => {
+            let e = enc_stable::<Ty, u32>(rng, ag, &node_order, &edge_order, true);
+            let cidx = cidx_of!(e.g, n, u32);
+            let vacant = (0..e.g.node_bound()).map(petgraph::graph::NodeIndex::<u32>::new).find(|&x| !e.g.contains_node(x)).unwrap_or(petgraph::graph::NodeIndex::new(e.g.node_bound() + 2));
+            let mut r = &e.g;
+            let fz = Frozen::new(&mut r);
+            let g = &fz;
+            let abs = |x: petgraph::graph::NodeIndex<u32>| e.g[x];
+            let conc = |a: usize| if a < n { cidx[a] } else { vacant };
+            go!(OnlyF64, g, &abs, &conc, dir);
+        }
+        _ => acyclic_case(ctx, rng, ag, hint, &plan, enc, dir, which, &node_order, &edge_order, &inv),
     }
 }
+
+/// MatrixGraph: `IntoEdgesDirected` exists for `Directed` only
+fn matrix_go<Ty: petgraph::EdgeType + 'static, CS: CostSet>(
+    ctx: &mut Ctx, rng: &mut Rng, ag: &AG, hint: Option<(usize, usize)>, plan: &Plan, dir: bool, which: usize,
+    g: &petgraph::matrix_graph::MatrixGraph<usize, i64, std::collections::hash_map::RandomState, Ty>,
+    abs: &dyn Fn(petgraph::matrix_graph::NodeIndex) -> usize, conc: &dyn Fn(usize) -> petgraph::matrix_graph::NodeIndex,
+) {
+    if dir {
+        // only reached with a directed abstract graph: re-borrow at the `Directed` type
+        let gd: &petgraph::matrix_graph::MatrixGraph<usize, i64, std::collections::hash_map::RandomState, Directed> =
+            (g as &dyn std::any::Any).downcast_ref().expect("directed matrix graph");
+        adapt_dir::<_, CS>(ctx, rng, ag, hint, plan, which, gd, abs, conc);
+    } else {
+        adapt_out::<_, CS>(ctx, rng, ag, hint, plan, which, g, abs, conc);
+    }
+}
+
+/// `Acyclic<DiGraph>` / `Acyclic<StableDiGraph>` (directed acyclic abstract graphs only)
+fn acyclic_case(ctx: &mut Ctx, rng: &mut Rng, ag: &AG, hint: Option<(usize, usize)>, plan: &Plan, enc: usize, dir: bool, which: usize, node_order: &[usize], edge_order: &[usize], inv: &[usize]) {
+    let n = ag.n;
+    if enc == 13 {
+        let e = enc_graph::<Directed, u32>(ag, node_order, edge_order);
+        let a0 = match Acyclic::try_from_graph(e.g) {
+            Ok(a) => a,
+            Err(_) => {
+                ctx.line("law acyclic-accepts-dag graph", "VIOLATED Acyclic::try_from_graph refused an acyclic graph");
+                return;
+            }
+        };
+        let g = &a0;
+        let abs = |x: petgraph::graph::NodeIndex<u32>| a0.inner()[x];
+        let conc = |a: usize| petgraph::graph::NodeIndex::<u32>::new(if a < n { inv[a] } else { n + 3 });
+        if dir { adapt_dir::<_, OnlyU32>(ctx, rng, ag, hint, plan, which, g, &abs, &conc) } else { adapt_out::<_, OnlyU32>(ctx, rng, ag, hint, plan, which, g, &abs, &conc) }
+    } else {
+        let e = enc_stable::<Directed, u32>(rng, ag, node_order, edge_order, true);
+        let cidx = cidx_of!(e.g, n, u32);
+        let vacant = (0..e.g.node_bound()).map(petgraph::graph::NodeIndex::<u32>::new).find(|&x| !e.g.contains_node(x)).unwrap_or(petgraph::graph::NodeIndex::new(e.g.node_bound() + 2));
+        let a0 = match Acyclic::try_from_graph(e.g) {
+            Ok(a) => a,
+            Err(_) => {
+                ctx.line("law acyclic-accepts-dag stable", "VIOLATED Acyclic::try_from_graph refused an acyclic graph");
+                return;
+            }
+        };
+        let g = &a0;
+        let abs = |x: petgraph::graph::NodeIndex<u32>| a0.inner()[x];
+        let conc = |a: usize| if a < n { cidx[a] } else { vacant };
+        if dir { adapt_dir::<_, OnlyF64>(ctx, rng, ag, hint, plan, which, g, &abs, &conc) } else { adapt_out::<_, OnlyF64>(ctx, rng, ag, hint, plan, which, g, &abs, &conc) }
+    }
+}
+
+fn is_dag(ag: &AG) -> bool {
+    let mut indeg = vec![0usize; ag.n];
+    for e in &ag.edges {
+        indeg[e.1] += 1;
+    }
+    let mut stack: Vec<usize> = (0..ag.n).filter(|&v| indeg[v] == 0).collect();
+    let mut seen = 0;
+    while let Some(v) = stack.pop() {
+        seen += 1;
+        for e in &ag.edges {
+            if e.0 == v {
+                indeg[e.1] -= 1;
+                if indeg[e.1] == 0 {
+                    stack.push(e.1);
+                }
+            }
+        }
+    }
+    seen == ag.n
+}
+
+// ------------------------------------------------------------------------------------------------
+// shapes
 
 /// chains of diamonds (a two-hop route slightly cheaper than the direct edge) with an expensive
 /// tail: the shape on which A* with an inconsistent heuristic must re-expand a node it has already
@@ -442,6 +1166,58 @@ fn gen_trap(rng: &mut Rng, directed: bool, max_n: usize) -> (AG, (usize, usize))
     (AG { directed, n, edges }.relabel(&p), (p[0], p[t]))
 }
 
+/// one or two nodes carrying self-loops and parallel edges (k-th walks go round and round)
+fn gen_tiny(rng: &mut Rng, directed: bool, lo: i64, hi: i64) -> AG {
+    let n = 1 + rng.below(2);
+    let m = rng.below(5);
+    let edges = (0..m).map(|_| (rng.below(n), rng.below(n), rng.range(lo, hi))).collect();
+    AG { directed, n, edges }
+}
+
+/// a hub with 31 … 34 out-edges (the 32-entry cut-off of Csr rows) among `n` = hub + 34 … 36 nodes, plus a few
+/// edges among the leaves; `simple` = no parallel edges / loops (so that every storage type can hold it)
+fn gen_wide(rng: &mut Rng, directed: bool, lo: i64, hi: i64) -> (AG, (usize, usize)) {
+    let deg = 31 + rng.below(4);
+    let n = deg + 1 + rng.below(3);
+    let mut edges: Vec<(usize, usize, i64)> = (1..=deg).map(|v| (0, v, rng.range(lo, hi))).collect();
+    for _ in 0..rng.below(12) {
+        let (a, b) = (1 + rng.below(n - 1), 1 + rng.below(n - 1));
+        if a != b && !edges.iter().any(|e| (e.0 == a && e.1 == b) || (e.0 == b && e.1 == a)) {
+            edges.push((a, b, rng.range(lo, hi)));
+        }
+    }
+    // some edges back into the hub
+    for _ in 0..rng.below(3) {
+        let a = 1 + rng.below(n - 1);
+        if directed && !edges.iter().any(|e| e.0 == a && e.1 == 0) {
+            edges.push((a, 0, rng.range(lo, hi)));
+        }
+    }
+    rng.shuffle(&mut edges);
+    let p = random_perm(rng, n);
+    (AG { directed, n, edges }.relabel(&p), (p[0], p[n - 1]))
+}
+
+/// `n` nodes (254 or 255: one below / exactly at the capacity of a `u8` index) and 253 … 255 edges: a random tree
+/// grown from node 0 plus extra edges up to the edge capacity
+fn gen_cap(rng: &mut Rng, directed: bool, lo: i64, hi: i64) -> (AG, (usize, usize)) {
+    let n = 254 + rng.below(2);
+    let mut edges: Vec<(usize, usize, i64)> = Vec::new();
+    for v in 1..n {
+        // long chains and bushy parts
+        let p = if rng.chance(50) { v - 1 } else { rng.below(v) };
+        edges.push((p, v, rng.range(lo, hi)));
+    }
+    let m = 253 + rng.below(3);
+    while edges.len() < m {
+        edges.push((rng.below(n), rng.below(n), rng.range(lo, hi)));
+    }
+    edges.truncate(m.max(n - 1));
+    rng.shuffle(&mut edges);
+    let p = random_perm(rng, n);
+    (AG { directed, n, edges }.relabel(&p), (p[0], p[n - 1]))
+}
+
 pub fn run(ctx: &mut Ctx, case: u64) {
     let mut rng = Rng::for_case(ctx.seed, "C10", case);
     let directed = rng.chance(60);
@@ -449,24 +1225,34 @@ pub fn run(ctx: &mut Ctx, case: u64) {
     // tie-heavy {0,1,2} (zero edges and zero cycles), or a wider range
     let (lo, hi) = match rng.below(6) { 0 => (0, 1), 1 | 2 => (0, 2), 3 => (0, 9), 4 => (0, 30), _ => (1, 12) };
     let opts = if rng.chance(65) { GenOpts::multi(max_n, lo, hi) } else { GenOpts { loops: rng.chance(50), wlo: lo, whi: hi, ..GenOpts::simple(max_n) } };
-    let (mut ag, fam, hint) = if rng.chance(14) {
+    let all_encs: Vec<usize> = vec![0, 0, 0, 0, 0, 1, 2, 2, 3, 3, 4, 5, 5, 6, 7, 8, 9, 10, 11, 12, 13, 14, 15];
+    let kindsel = rng.below(1000);
+    let (ag, shape) = if kindsel < 140 {
         let (ag, hint) = gen_trap(&mut rng, directed, max_n);
-        (ag, 0, Some(hint))
+        (ag, Shape { fam: "astar-trap".into(), kind: "trap", hint: Some(hint), encs: all_encs })
+    } else if kindsel < 200 {
+        (gen_tiny(&mut rng, directed, lo, hi), Shape { fam: "tiny".into(), kind: "tiny", hint: None, encs: all_encs })
+    } else if kindsel < 215 {
+        let (ag, hint) = gen_wide(&mut rng, directed, lo, hi);
+        (ag, Shape { fam: "wide-row".into(), kind: "wide", hint: Some(hint), encs: vec![5, 5, 5, 0, 2, 3, 4, 6] })
+    } else if kindsel < 219 {
+        let (ag, hint) = gen_cap(&mut rng, directed, lo, hi.min(9));
+        (ag, Shape { fam: "u8-capacity".into(), kind: "cap", hint: Some(hint), encs: vec![1, 8] })
+    } else if kindsel < 221 {
+        (AG { directed, n: 0, edges: vec![] }, Shape { fam: "empty".into(), kind: "empty", hint: None, encs: vec![0] })
     } else {
         let (ag, fam) = gen_graph(&mut rng, directed, opts);
-        (ag, fam, None)
+        (ag, Shape { fam: family_name(fam).into(), kind: "regular", hint: None, encs: all_encs })
     };
-    // "big": all costs scaled by one factor so that the largest sums come close to u32::MAX without
-    // leaving it: no cost any of the three algorithms computes exceeds (5n + 1) * max weight (a k-th
-    // cheapest walk, k <= 4, costs at most (k+1) * n * max weight), and 5n + 1 <= 8 (n + 1)
-    let big = rng.chance(8);
-    if big {
-        let maxw = ag.edges.iter().map(|e| e.2).max().unwrap_or(1).max(1);
-        let f = (u32::MAX as i64) / (8 * (ag.n as i64 + 1) * maxw);
-        for e in ag.edges.iter_mut() {
-            e.2 *= f;
-        }
+    if ag.n == 0 {
+        // the empty graph has no source to start from: only its view is checked
+        ctx.raw(&format!("case {} fam={} kind=empty enc=plain(graph-u32) n=0 m=0 cls=plain", case, shape.fam));
+        let e = enc_graph::<Directed, u32>(&ag, &[], &[]);
+        let g = &e.g;
+        let (line, _) = c10_view(&ag, g, &|x| g[x]);
+        ctx.line(&line, "ok");
+    } else {
+        with_ty!(directed, case_ty, ctx, &mut rng, &ag, &shape, case);
     }
-    with_ty!(directed, case_ty, ctx, &mut rng, &ag, fam, hint, big, case);
     minscored(ctx, &mut rng);
 }
